@@ -1,4 +1,4 @@
-STREAMS = ["c06", "c06proc"]
+STREAMS = ["c06", "c06proc", "c06gw", "c08gw"]
 RULE = ("pairs of byte streams relayed by the real forward() and receive() over net.Pipe, both directions concurrently: "
         "payload sizes {0,1,2,4085,4086,4087,4096,8192,65535}, all byte values, DATA bodies whose length field is shorter or "
         "longer than the bytes carried, random splits into DATA packets and host writes, streams up to 1 MiB (quick) / 8 MiB "
@@ -10,6 +10,8 @@ ASSUMPTIONS = ["ordering between the two directions is not observable and not co
 
 
 def nontrivial(c):
+    if c.kind in ("exact", "tunnel"):
+        return True
     return c.impl.strip() != "- | -"
 
 
